@@ -207,6 +207,94 @@ Theorem C08_np_isclose_asym : exists a b : Q, np_isclose a b = true /\ np_isclos
 Proof. exact np_isclose_asym. Qed.
 Print Assumptions C08_np_isclose_asym.
 
+(* --- 6. the 18 helpers one by one (observed one by one by the correspondence, both argument orders) *)
+(* equal_kapture is the conjunction of the answers of its 18 helpers; each helper decides exactly the relation of
+   its own part, is symmetric, and looks at nothing but its own part *)
+Theorem C08_equal_is_conjunction_of_helpers :
+  (forall a b, equal a b = forallb (fun x => x) (answers a b)) /\
+  (forall a b, List.length (answers a b) = 18%nat) /\
+  (forall p a b, wf_ds a -> wf_ds b ->
+     (answer p a b = true <-> orel (part_rel pose_close_q isclose_sym set_equal) (get p a) (get p b))) /\
+  (forall p a b, wf_ds a -> wf_ds b -> answer p a b = answer p b a) /\
+  (forall p a a' b b', get p a = get p a' -> get p b = get p b' -> answer p a b = answer p a' b').
+Proof.
+  split; [exact equal_is_conjunction|]. split; [exact answers_length|]. split; [exact answer_iff|].
+  split; [exact answer_sym | exact answer_local].
+Qed.
+Print Assumptions C08_equal_is_conjunction_of_helpers.
+
+(* the order in which the parts are visited (and visiting a part twice) does not change the answer, whatever the
+   leaf relations: a refactoring of the walk that still visits every part is harmless *)
+Theorem C08_walk_order_irrelevant : forall pose_close num_close seteq (w : list part_id) a b, (forall p, In p w) ->
+  equal_with pose_close num_close seteq w a b = equal_with pose_close num_close seteq walk a b.
+Proof. exact walk_order_irrelevant. Qed.
+Print Assumptions C08_walk_order_irrelevant.
+
+(* --- 7. the error branch (equal_nested_dict_or_set with an expected class: nine record kinds, observations) *)
+(* a typed helper raises TypeError exactly when an argument is an object (not None) of another class, whichever
+   side it is on; it never answers (True or False) then; on its own class it answers what the part comparison says *)
+Theorem C08_helper_error_branch :
+  (forall h x y, helper_call h x y = TypeErr <-> typed_helper h = true /\ (foreign h x = true \/ foreign h y = true)) /\
+  (forall h x y, helper_call h x y = TypeErr <-> helper_call h y x = TypeErr) /\
+  (forall h x y b, typed_helper h = true -> foreign h x = true \/ foreign h y = true -> helper_call h x y <> Ans b) /\
+  (forall h (x y : option part), helper_call h (option_map (fun v => (h, v)) x) (option_map (fun v => (h, v)) y)
+                                 = Ans (opt_equal (part_equal pose_close_q isclose_sym set_equal h) x y)) /\
+  (forall h x y, helper_call h x y <> OtherErr).
+Proof.
+  split; [exact helper_call_typeerr|]. split; [exact helper_call_typeerr_sym|]. split; [exact helper_call_foreign|].
+  split; [exact helper_call_own | exact helper_call_never_other].
+Qed.
+Print Assumptions C08_helper_error_branch.
+
+(* equal_kapture as the code runs it (helpers in sequence, first answer that is not True wins): on two datasets whose
+   attributes hold objects of their own class it NEVER raises and its outcome is the boolean [equal]; when an
+   attribute of a typed helper was forced to another class it never answers True *)
+Theorem C08_equal_kapture_never_raises_on_typed_datasets : forall a b, own_class a -> own_class b ->
+  equal_outcome a b = Ans (equal (untag a) (untag b)).
+Proof. exact equal_outcome_typed. Qed.
+Print Assumptions C08_equal_kapture_never_raises_on_typed_datasets.
+
+Theorem C08_foreign_class_never_equal : forall a b p, typed_helper p = true ->
+  foreign p (lookup p a) = true \/ foreign p (lookup p b) = true -> equal_outcome a b <> Ans true.
+Proof. intros a b p. apply walk_outcome_foreign. apply all_in_walk. Qed.
+Print Assumptions C08_foreign_class_never_equal.
+
+(* the code was observed on this run (regenerated table): each of the ten typed helpers raises TypeError on the object
+   of exactly the 17 other parts of a full dataset, and the setter of that attribute of kapture.Kapture refuses
+   exactly those: [own_class] is what the setters enforce *)
+Theorem C08_error_branch_as_in_code :
+  forallb (fun h => negb (typed_helper h) ||
+     forallb (fun q => Bool.eqb (memb (part_name h, part_name q) Tcompare.helper_rejects) (negb (eqb q h))
+                       && Bool.eqb (memb (part_name h, part_name q) Tcompare.setter_rejects) (negb (eqb q h))) walk) walk = true /\
+  List.length (List.filter typed_helper walk) = 10%nat.
+Proof. split; vm_compute; reflexivity. Qed.
+Print Assumptions C08_error_branch_as_in_code.
+
+(* --- 8. composition with the container operations *)
+(* the same entry written (added or overwritten) / removed on both sides of two equal datasets leaves them equal *)
+Theorem C08_same_change_on_both_sides_keeps_equal : forall a b p m m' k, wf_ds a -> wf_ds b ->
+  get p a = Some (PMap m) -> get p b = Some (PMap m') -> equal a b = true ->
+  (forall v, equal (insert p (PMap (insert k v m)) a) (insert p (PMap (insert k v m')) b) = true) /\
+  equal (insert p (PMap (remove k m)) a) (insert p (PMap (remove k m')) b) = true.
+Proof.
+  intros a b p m m' k Wa Wb Ga Gb E. split.
+  - intros v. apply same_entry_written_both_sides; assumption.
+  - apply same_entry_removed_both_sides; assumption.
+Qed.
+Print Assumptions C08_same_change_on_both_sides_keeps_equal.
+
+(* an entry added and taken away again: equal to the original, in both orders *)
+Theorem C08_add_then_remove_restores : forall a p m k v, wf_ds a -> get p a = Some (PMap m) -> lookup k m = None ->
+  let a' := insert p (PMap (remove k (insert k v m))) a in equal a a' = true /\ equal a' a = true.
+Proof. exact add_then_remove_restores. Qed.
+Print Assumptions C08_add_then_remove_restores.
+
+(* a comparison up to a tolerance cannot be transitive: a computed witness on 3-D points (8e-6 apart twice) *)
+Theorem C08_not_transitive :
+  exists a b c, equal a b = true /\ equal b c = true /\ equal a c = false /\ equal c a = false.
+Proof. exact equal_not_transitive. Qed.
+Print Assumptions C08_not_transitive.
+
 (* --- non-vacuity: a concrete well-formed dataset with several parts; equal to a reordered copy, and every kind
        of single change is detected in both orders *)
 Definition ex_pose (x : Q) : val := VPose {| p_r := Some (1, 0, 0, 0); p_t := Some (x, 0, 0) |}.
@@ -284,4 +372,21 @@ Proof.
     repeat split; try (vm_compute; reflexivity). vm_compute. discriminate.
   - exists depth1, []. repeat split; try (vm_compute; reflexivity). vm_compute. discriminate.
   - exists (pts1 1), (pts1 qband). repeat split; vm_compute; reflexivity.
+Qed.
+
+(* non-vacuity of section 7: a dataset with its own classes, one with a lidar object forced into records_camera *)
+Definition ex_tag (d : dataset) : tdataset := map (fun e => (fst e, (fst e, snd e))) d.
+Definition ex_forced : tdataset := (RecordsCamera, (RecordsLidar, PMap [])) :: ex_tag ex_a.
+Example C08_example_error_branch :
+  own_class (ex_tag ex_a) /\ untag (ex_tag ex_a) = ex_a /\
+  equal_outcome (ex_tag ex_a) (ex_tag ex_reordered) = Ans true /\
+  equal_outcome ex_forced (ex_tag ex_a) = TypeErr /\ equal_outcome (ex_tag ex_a) ex_forced = TypeErr /\
+  (* a False found earlier in the walk hides the error *)
+  equal_outcome ex_forced (ex_tag (remove Sensors ex_a)) = Ans false /\
+  helper_call RecordsCamera (Some (RecordsLidar, PMap [])) None = TypeErr /\
+  helper_call RecordsCamera (Some (RecordsCamera, PMap [])) None = Ans false.
+Proof.
+  split.
+  - intros p c x. destruct p; vm_compute; intros E; try discriminate; injection E as <- _; reflexivity.
+  - repeat split; vm_compute; reflexivity.
 Qed.
